@@ -1,0 +1,32 @@
+//! Verification hooks, compiled only with the `verif-hooks` cargo feature.
+//!
+//! Nothing in this module changes what the crate computes. [`point`] marks a
+//! place where an external, controlled scheduler may switch to another thread;
+//! without an installed hook it is a relaxed atomic load and a branch.
+
+use std::sync::atomic::{AtomicBool, Ordering};
+use std::sync::RwLock;
+
+/// Type of the function called at every scheduling point.
+pub type Hook = fn(&'static str);
+
+static ENABLED: AtomicBool = AtomicBool::new(false);
+static HOOK: RwLock<Option<Hook>> = RwLock::new(None);
+
+/// Install (`Some`) or remove (`None`) the function called at every scheduling point.
+pub fn set_hook(hook: Option<Hook>) {
+    let mut guard = HOOK.write().unwrap_or_else(|e| e.into_inner());
+    *guard = hook;
+    ENABLED.store(hook.is_some(), Ordering::SeqCst);
+}
+
+/// A scheduling point named `site`.
+#[inline]
+pub fn point(site: &'static str) {
+    if ENABLED.load(Ordering::Relaxed) {
+        let hook = *HOOK.read().unwrap_or_else(|e| e.into_inner());
+        if let Some(hook) = hook {
+            hook(site);
+        }
+    }
+}
